@@ -44,12 +44,18 @@ def oracle(size, first, last):
 
 
 def check(ctx):
-    _arithmetic(ctx)
-    _parse(ctx)
-    _make_producer(ctx)
-    _single(ctx)
-    _multiple(ctx)
-    _producers(ctx)
+    with ctx.section("arithmetic"):
+        _arithmetic(ctx)
+    with ctx.section("parse"):
+        _parse(ctx)
+    with ctx.section("make-producer"):
+        _make_producer(ctx)
+    with ctx.section("single"):
+        _single(ctx)
+    with ctx.section("multiple"):
+        _multiple(ctx)
+    with ctx.section("producers"):
+        _producers(ctx)
 
 
 def _arithmetic(ctx):
